@@ -144,6 +144,10 @@ func (c *FnCtx) doCall(frame *Frame, st *State, in ssa.Instruction, call *ssa.Ca
 			}
 		}
 	}
+	// call-site rules of the function under verification
+	if !frame.inlined && frame.contract != nil && len(frame.contract.Asserts) > 0 && key != "" {
+		c.checkCallSiteAsserts(frame, st, in, key)
+	}
 	// special handlers
 	if c.special(frame, st, in, call, key, args, rt, k) {
 		return
